@@ -8,6 +8,7 @@ func buildProperties() []Property {
 			NotDecided: "language preservation, argument bindings, cut and negation semantics inside bodies.",
 			Rules: []RuleDef{
 				{"R-DCG-THREAD", 14, ruleDCGThread},
+				{"R-DCG-LOOKAHEAD", 1, ruleDCGLookahead},
 			},
 		},
 		{
@@ -38,6 +39,7 @@ func buildProperties() []Property {
 				{"R-STREAM-OWNER", 8, ruleStreamOwner},
 				{"R-POSITION-PAIRING", 6, rulePositionPairing},
 				{"R-PEEK-UNREAD", 5, rulePeekUnread},
+				{"R-EOF-ACTION-PAST", 1, ruleEOFActionPast},
 				{"R-LOOKAHEAD", 20, ruleLookahead},
 			},
 		},
@@ -76,6 +78,7 @@ func buildProperties() []Property {
 				{"R-NO-SEND-AFTER-CLOSE", 1, only("R-NO-SEND-AFTER-CLOSE", ruleSolutionsTypestate)},
 				{"R-NO-SEND-WHEN-EXHAUSTED", 1, only("R-NO-SEND-WHEN-EXHAUSTED", ruleSolutionsTypestate)},
 				{"R-GOROUTINE-RELEASE", 3, only("R-GOROUTINE-RELEASE", ruleSolutionsTypestate)},
+				{"R-CLOSE-STOPS", 1, ruleCloseStops},
 			},
 		},
 		{
@@ -86,6 +89,7 @@ func buildProperties() []Property {
 				{"R-NARROWING", 6, ruleNarrowing},
 				{"R-PLACEHOLDER-TAINT", 2, rulePlaceholderTaint},
 				{"R-ARGS-CONSUMED", 2, ruleArgsConsumed},
+				{"R-SUBST-LAST", 1, ruleSubstLast},
 			},
 		},
 		{
@@ -167,6 +171,7 @@ func buildProperties() []Property {
 			Rules: []RuleDef{
 				{"R-BALL-COPY", 6, ruleBallCopy},
 				{"R-CATCH-ENV", 3, ruleCatchEnv},
+				{"R-RECOVER-WRITERS", 1, ruleRecoverWriters},
 				{"R-ENV-IMMUT", 9, ruleEnvImmut},
 				{"R-PARAM-THREAD", 4, ruleParamThread(threadRowsFor("renamedCopy"))},
 			},
@@ -178,6 +183,7 @@ func buildProperties() []Property {
 			Rules: []RuleDef{
 				{"R-COPY-ON-COLLECT", 1, ruleCopyOnCollect},
 				{"R-OUTER-ENV", 2, ruleOuterEnv},
+				{"R-RESOLVE-FIRST", 6, ruleResolveFirst},
 				{"R-ENV-IMMUT", 9, ruleEnvImmut},
 				{"R-PARAM-THREAD", 4, ruleParamThread(threadRowsFor("renamedCopy"))},
 			},
